@@ -428,6 +428,11 @@ func C09Corpus(args []string) {
 			progs = append(progs, hx.NewProgram(c.Rules, grl.Style{}))
 		}
 	})
+	// rule names that differ only in letter case are different names
+	progs = append(progs, hx.NewProgram([]*grl.Rule{
+		grl.R("Ab", nil, "F.I < 1", "F.I = F.I + 1", `Retract("Ab")`),
+		grl.R("aB", nil, "F.I2 < 1", "F.I2 = F.I2 + 1", `Retract("aB")`),
+		grl.R("AB", grl.Sal(1), "F.K < 1", "F.K = F.K + 1", `Retract("AB")`)}, grl.Style{}))
 	var nProgs, nGraphs, nBehav int64
 	ParallelEach(len(progs), func(pi int) {
 		p := progs[pi]
@@ -456,6 +461,13 @@ func C09Corpus(args []string) {
 		mu.Lock()
 		nProgs++
 		mu.Unlock()
+		// whatever order the blueprint's rule map is visited in (Clone, GetSnapshot), an instance comes out
+		for ord := 0; ord < b.CloneOrders(); ord++ {
+			if _, err := b.InstanceOrd(ord); err != nil {
+				report("C09:instance-creation-fails:for-some-visiting-order-of-the-rule-map", fmt.Sprintf("order %d of %d: %v\n  grl: %s", ord, b.CloneOrders(), err, p.Text), id)
+				break
+			}
+		}
 		blueprint := b.Lib.GetKnowledgeBase(hx.KBName, hx.KBVer)
 		bpKey0 := hx.MemoDump(blueprint)
 		insts := make([]*ast.KnowledgeBase, 3)
